@@ -44,5 +44,6 @@ broadcast use axiom_strb_utf8, axiom_sbytes_utf8, axiom_seal_len, axiom_open_uni
 //@include ../parts/ssudp.rs
 //@include ../parts/sspayload.rs
 //@include ../parts/keys.rs
+//@include ../parts/ssassoc.rs
 } // verus!
 fn main() {}
